@@ -77,6 +77,15 @@ fn c03_is_complete_iff_chunk_covers_whole_version() {
 /// duplication of arrivals (the pre-state is arbitrary).
 #[kani::proof]
 fn c03_chunk_arrival_merges_ranges_exactly() {
+    chunk_arrival(0, 1);
+}
+/// same step with two change rows in the chunk (case split on the row count: the two cases run
+/// in parallel and each keeps the buffering loop's trip count concrete)
+#[kani::proof]
+fn c03_chunk_arrival_two_rows() {
+    chunk_arrival(2, 2);
+}
+fn chunk_arrival(min_rows: usize, max_rows: usize) {
     let last_seq: u64 = kani::any();
     kani::assume(last_seq <= M);
     let have: u32 = kani::any();
@@ -96,7 +105,7 @@ fn c03_chunk_arrival_merges_ranges_exactly() {
 
     // up to two change rows inside the chunk
     let n: usize = kani::any();
-    kani::assume(n <= 2);
+    kani::assume(min_rows <= n && n <= max_rows);
     let (c0, c1): (u64, u64) = (kani::any(), kani::any());
     kani::assume(a <= c0 && c0 <= b && a <= c1 && c1 <= b && (n < 2 || c0 < c1));
     let mut changes = Vec::new();
